@@ -7,11 +7,13 @@ CORPUS = os.path.join(vlib.ROOT, "corpus", "C01-window-fork.json")
 # the same fork with every coin bit true: reachable by the order of delivery alone (no special hash)
 CORPUS_SCHED = os.path.join(vlib.ROOT, "corpus", "C01-window-fork-sched.json")
 
-# second, independent fork: fame decided with the super-majority of the NEXT round's (smaller) validator set
-# (known finding C01-fame-threshold-after-shrink); the window is respected there, so C10 has nothing to report
+# second, independent fork: fame was decided with the super-majority of the NEXT round's (smaller) validator set
+# (known finding C01-fame-threshold-after-shrink, fixed: 05eda0b): REGRESSION INPUT, must not fork any more;
+# the window is respected there, so C10 has nothing to report
 CORPUS_SHRINK = os.path.join(vlib.ROOT, "corpus", "C01-shrink-fork.json")
 SCENARIOS = (("window-fork", CORPUS, ("C01", "C10")), ("window-fork-sched", CORPUS_SCHED, ("C01", "C10")),
              ("shrink-fork", CORPUS_SHRINK, ("C01",)))
+REGRESSION = ("shrink-fork",)   # scenarios of FIXED findings: no violation line is the expected outcome
 
 def replay(corpus=None):
     corpus = corpus or CORPUS
@@ -67,6 +69,6 @@ def _apply_one(pid, ctx, findings, diffs, cov, name, corpus):
         if m and m.group(1) == pid:
             mine += 1
             findings.append(dict(cls=m.group(2), key=m.group(3)[:200], detail="%s replay %s" % (name, v)))
-    if mine == 0:
+    if mine == 0 and name not in REGRESSION:
         ctx["notes"].append("the recorded %s history no longer violates %s on this tree (the Coq refutations "
                             "C10_window_refuted / C01_agreement_dynamic_refuted are about the model of the pinned code)" % (name, pid))
